@@ -3478,4 +3478,126 @@ theorem crash_keywait_example' :
     ∧ (runTraceRF rwCfg true (initRF rwCfg 1) rfTrace).map (fun s => (s.mainErr, s.r.keyWait, s.r.b.nprocs, s.r.routq)) = some (true, [], 0, [])
     ∧ (runTraceRF rwCfg true (initRF rwCfg 1) rfTrace).map (fun s => (s.r.b.main, outcome s.r.b, s.budget)) = some (Phase.done, Outcome.ok [1], 0) := by decide
 
+/-! ### phase 6: the read_wait protocol (`MyProcessLine.run/start`, the caller's dispatch) is the program `workerProgram` -/
+
+theorem readwait_program_line_end' (c : Cfg) (s : RState) (a : Action) (w : Nat) (h : lineEnds s.b a = some w) :
+    rwPc (stepR c true s (.base a)) w = 1 ∧ enabledR c (stepR c true s (.base a)) (.base (.wCallback w)) = false := by
+  have hk : (stepR c true s (.base a)).keyPending = w :: s.keyPending := by simp [stepR, h]
+  constructor
+  · simp [rwPc, hk]
+  · simp [enabledR, hk]
+
+theorem readwait_program_no_store' (c : Cfg) (s : RState) (a : Action) :
+    (stepR c false s (.base a)).keyPending = s.keyPending ∧ (stepR c false s (.base a)).keyWait = s.keyWait := by
+  simp [stepR]
+
+theorem readwait_program_write_key' (c : Cfg) (rw : Bool) (s : RState) (w : Nat) (h : rwPc s w = 1) :
+    enabledR c s (.wKey w) = true ∧ (stepR c rw s (.wKey w)).routq = s.routq ++ [.key w]
+    ∧ (stepR c rw s (.wKey w)).keyWait.contains w = true ∧ (stepR c rw s (.wKey w)).b = s.b := by
+  have hp : s.keyPending.contains w = true := by
+    simp only [rwPc] at h
+    split at h
+    · assumption
+    · split at h <;> omega
+  refine ⟨by simpa [enabledR] using hp, by simp [stepR], by simp [stepR], by simp [stepR]⟩
+
+theorem readwait_program_blocks_exit' (c : Cfg) (s : RState) (w : Nat) (h : rwPc s w ≠ 0) :
+    enabledR c s (.base (.wCallback w)) = false := by
+  simp only [rwPc] at h
+  split at h
+  · rename_i h1
+    have h1' : w ∈ s.keyPending := by simpa using h1
+    simp [enabledR, h1']
+  · split at h
+    · rename_i _ h2
+      have h2' : w ∈ s.keyWait := by simpa using h2
+      simp [enabledR, h2']
+    · exact absurd rfl h
+
+theorem readwait_program_wait_released_by_caller' (c : Cfg) (rw : Bool) (s : RState) (a : ActionR) (w : Nat)
+    (ha : a ≠ .cKey) (hw : s.keyWait.contains w = true) : (stepR c rw s a).keyWait.contains w = true := by
+  cases a with
+  | base a => simpa [stepR] using hw
+  | wKey w' => simp [stepR]; right; simpa using hw
+  | cKey => exact absurd rfl ha
+  | drainKey => simpa [stepR] using hw
+
+theorem readwait_caller_dispatch' (c : Cfg) (s : RState) :
+    enabledR c s .cKey = (s.b.main == .consuming && callerSets true (isKeyHead s.routq))
+    ∧ enabledR c s (.base .cGet) = (enabled c s.b .cGet && !callerSets true (isKeyHead s.routq)) := by
+  simp [enabledR, callerSets]
+
+theorem readwait_caller_sets_owner' (c : Cfg) (rw : Bool) (s : RState) (w : Nat) (rest : List ROut) (h : s.routq = .key w :: rest) :
+    (stepR c rw s .cKey).routq = rest ∧ (stepR c rw s .cKey).keyWait.contains w = false ∧ (stepR c rw s .cKey).b.recv = s.b.recv
+    ∧ ∀ w', w' ≠ w → (stepR c rw s .cKey).keyWait.contains w' = s.keyWait.contains w' := by
+  refine ⟨by simp [stepR, h], by simp [stepR, h], by simp [stepR, h], ?_⟩
+  intro w' hne
+  simp [stepR, h, List.contains_eq_mem, List.mem_filter, hne]
+
+/-- non-vacuity: after `rwTrace1`'s line end the lineage is at `writeKey` (pc 1), after `wKey` it waits (pc 2) and the callback is blocked -/
+theorem readwait_program_example' :
+    (workerProgram true).map RWOp.code = [0, 1, 2] ∧ (workerProgram false).map RWOp.code = [0]
+    ∧ rwPc { b := init rwCfg, routq := [], keyPending := [0], keyWait := [] } 0 = 1
+    ∧ rwPc (stepR rwCfg true { b := init rwCfg, routq := [], keyPending := [0], keyWait := [] } (.wKey 0)) 0 = 2 := by decide
+
+/-! ### phase 6: calls alive at the same time on one object — the product system -/
+
+theorem overlapping_calls_project' (c1 c2 : Cfg) (tr : List Action2) : ∀ (s t : State × State),
+    runTrace2 c1 c2 s tr = some t → runTrace c1 s.1 (proj1 tr) = some t.1 ∧ runTrace c2 s.2 (proj2 tr) = some t.2 := by
+  induction tr with
+  | nil => intro s t h; simp [runTrace2] at h; subst h; simp [proj1, proj2, runTrace]
+  | cons a as ih =>
+    intro s t h
+    simp only [runTrace2] at h
+    split at h
+    · rename_i he
+      have := ih _ _ h
+      cases a with
+      | first a => simp only [enabled2] at he; simpa [proj1, proj2, runTrace, he, step2] using this
+      | second a => simp only [enabled2] at he; simpa [proj1, proj2, runTrace, he, step2] using this
+    · exact absurd h (by simp)
+
+theorem overlapping_calls_reachable' (c1 c2 : Cfg) (s : State × State) (h : Reachable2 c1 c2 s) :
+    Reachable c1 s.1 ∧ Reachable c2 s.2 := by
+  induction h with
+  | init => exact ⟨.init, .init⟩
+  | step hr he ih =>
+    rename_i s a
+    cases a with
+    | first a => exact ⟨.step ih.1 (by simpa [enabled2] using he), ih.2⟩
+    | second a => exact ⟨ih.1, .step ih.2 (by simpa [enabled2] using he)⟩
+
+/-- whatever the sibling call does (raise, be abandoned, lag behind), a step of one call never changes what is enabled for the other -/
+theorem overlapping_calls_no_interference' (c1 c2 : Cfg) (s : State × State) (a b : Action) :
+    enabled2 c1 c2 (step2 c1 c2 s (.first a)) (.second b) = enabled2 c1 c2 s (.second b)
+    ∧ enabled2 c1 c2 (step2 c1 c2 s (.second b)) (.first a) = enabled2 c1 c2 s (.first a)
+    ∧ step2 c1 c2 (step2 c1 c2 s (.first a)) (.second b) = step2 c1 c2 (step2 c1 c2 s (.second b)) (.first a) := by
+  simp [enabled2, step2]
+
+theorem overlapping_calls_exactly_once' (c1 c2 : Cfg) (hn : 0 < c2.n) (s : State × State) (hr : Reachable2 c1 c2 s)
+    (hd : s.2.main = .done) (hab : s.2.abandoned = false) (hne : ∀ x ∈ c2.items, x.err = none ∧ x.perr = none) :
+    ∃ outs, outcome s.2 = .ok outs ∧ outs.Perm (allOuts c2) :=
+  exactly_once' c2 hn s.2 (overlapping_calls_reachable' c1 c2 s hr).2 hd hab hne
+
+theorem overlapping_calls_deadlock_free' (c1 c2 : Cfg) (hn1 : 0 < c1.n) (hn2 : 0 < c2.n) (s : State × State) (hr : Reachable2 c1 c2 s)
+    (hnd : s.1.main ≠ .done ∨ s.2.main ≠ .done) :
+    ∃ a, a ≠ Action2.first .cAbandon ∧ a ≠ Action2.second .cAbandon ∧ enabled2 c1 c2 s a = true := by
+  have hr' := overlapping_calls_reachable' c1 c2 s hr
+  rcases hnd with h | h
+  · obtain ⟨a, ha, he⟩ := deadlock_free' c1 hn1 s.1 hr'.1 h
+    exact ⟨.first a, by simpa using ha, by simp, by simpa [enabled2] using he⟩
+  · obtain ⟨a, ha, he⟩ := deadlock_free' c2 hn2 s.2 hr'.2 h
+    exact ⟨.second a, by simp, by simpa using ha, by simpa [enabled2] using he⟩
+
+theorem overlapping_calls_variant' (c1 c2 : Cfg) (s : State × State) (a : Action2) (h : enabled2 c1 c2 s a = true) :
+    mu c1 (step2 c1 c2 s a).1 + mu c2 (step2 c1 c2 s a).2 < mu c1 s.1 + mu c2 s.2 := by
+  cases a with
+  | first a => have := mu_decreases' c1 s.1 a (by simpa [enabled2] using h); simp only [step2]; omega
+  | second a => have := mu_decreases' c2 s.2 a (by simpa [enabled2] using h); simp only [step2]; omega
+
+/-- non-vacuity: the two one-item calls `rwCfg`, the sibling started first, the first call abandoned... here: both run to the end, interleaved -/
+theorem overlapping_calls_example' :
+    (runTrace2 exOv exOv (init exOv, init exOv) exOvTrace).map (fun s => (outcome s.1, outcome s.2)) = some (.ok [1], .ok [1]) := by decide
+
+
 end Coba.C08
